@@ -852,6 +852,12 @@ func (m *StateMachine) handleViewUpdate(
 		panic(fmt.Errorf("TODO: handle view update for step %q", rlc.S))
 	}
 
+	if rlc.IsReplaying() {
+		// Handling the update moved us on to a height whose committed header we are replaying,
+		// so there is no live round view to update (or to jump ahead from) any more.
+		return
+	}
+
 	if vrv.Height == rlc.VRV.Height && vrv.Round == rlc.VRV.Round {
 		// If the view update caused a nil commit,
 		// the incoming vrv's height and round will differ from the set VRV.
